@@ -365,6 +365,7 @@ func c05SelfConf(r *core.Run) {
 		r.Check(rf["arg:StringLiterals"] || rf["StringLiterals"], "C05.SELFCONF", fnm+"#string-patterns-source", fn.Pos(), "string patterns are taken from the topology's string literals", "string patterns are not taken from the literals the matcher consults")
 	}
 	r.Floor("C05.SELFCONF", "signature indexer", n, 1)
+	c05PatternDerivation(r)
 	// matchers consult the same collections
 	callsOK, strsOK := false, false
 	for _, fn := range p.FuncsIn("pkg/detection") {
@@ -382,4 +383,86 @@ func c05SelfConf(r *core.Run) {
 	}
 	r.Check(callsOK, "C05.SELFCONF", "detection#call-matcher-consults(CallSignatures)", token.NoPos, "the call matcher consults the call profile", "no matcher consults the call profile")
 	r.Check(strsOK, "C05.SELFCONF", "detection#string-matcher-consults(StringLiterals)", token.NoPos, "the string matcher consults the string literals", "no matcher consults the string literals")
+}
+
+
+// c05PatternDerivation: a stored string pattern must still be contained (after the matcher's case folding)
+// in the literal it was taken from. That holds when the pattern is the literal itself or a trimmed form of
+// it; any other transformation (byte slicing can cut a multi-byte rune, concatenation, replacement) is
+// reported unless the function visibly works on rune boundaries.
+func c05PatternDerivation(r *core.Run) {
+	p := r.P
+	nSites := 0
+	for _, idx := range p.FuncsIn("pkg/detection") {
+		core.InstrsOf(idx, func(in ssa.Instruction) {
+			c, ok := in.(*ssa.Call)
+			if !ok {
+				return
+			}
+			ex := core.StaticCallee(&c.Call)
+			if ex == nil || !p.IsProdFunc(ex) || len(c.Call.Args) != 1 || len(ex.Params) != 1 {
+				return
+			}
+			if _, f, ok := sigField(c.Call.Args[0]); !ok || f != "StringLiterals" {
+				return
+			}
+			if rt := resultTypes(ex); len(rt) != 1 || rt[0].String() != "[]string" {
+				return
+			}
+			lits := ex.Params[0]
+			runeAware := false
+			core.InstrsOf(ex, func(in ssa.Instruction) {
+				if cc := core.CallOf(in); cc != nil && strings.HasPrefix(core.CalleeName(cc), "unicode/utf8.") {
+					runeAware = true
+				}
+			})
+			var derive func(v ssa.Value, d int) string
+			derive = func(v ssa.Value, d int) string {
+				if d > 10 {
+					return "derivation too deep"
+				}
+				switch x := v.(type) {
+				case *ssa.Extract:
+					if nx, ok := x.Tuple.(*ssa.Next); ok {
+						if rg, ok := nx.Iter.(*ssa.Range); ok && rg.X == ssa.Value(lits) {
+							return ""
+						}
+					}
+				case *ssa.UnOp:
+					if ia, ok := x.X.(*ssa.IndexAddr); ok && x.Op == token.MUL && ia.X == ssa.Value(lits) {
+						return ""
+					}
+				case *ssa.Phi:
+					for _, e := range x.Edges {
+						if why := derive(e, d+1); why != "" {
+							return why
+						}
+					}
+					return ""
+				case *ssa.Call:
+					switch core.CalleeName(&x.Call) {
+					case "strings.Trim", "strings.TrimSpace", "strings.TrimLeft", "strings.TrimRight", "strings.TrimPrefix", "strings.TrimSuffix", "strings.TrimFunc":
+						return derive(x.Call.Args[0], d+1)
+					}
+					return "result of " + core.CalleeName(&x.Call)
+				case *ssa.Slice:
+					if runeAware {
+						return derive(x.X, d+1)
+					}
+					return "a byte slice " + core.Canon(x) + " (may cut a multi-byte rune; case folding then changes the tail)"
+				}
+				return core.Canon(v)
+			}
+			core.InstrsOf(ex, func(in ssa.Instruction) {
+				mu, ok := in.(*ssa.MapUpdate)
+				if !ok || mu.Key.Type().String() != "string" {
+					return
+				}
+				nSites++
+				why := derive(mu.Key, 0)
+				r.Check(why == "", "C05.SELFCONF", core.FuncName(ex)+"#pattern-is-trimmed-literal", mu.Pos(), "a stored pattern is the literal or a trimmed form of it", "a stored string pattern is "+why+", not the literal or a trimmed form of it: the matcher may not find the pattern in the very literal it came from, so the indexed function is not found again with full confidence")
+			})
+		})
+	}
+	r.Floor("C05.SELFCONF", "pattern insert sites in the string-pattern extractor", nSites, 1)
 }
